@@ -70,7 +70,7 @@ def generate(tier, seed):
                 add('depth1-concrete/' + fam, prog, ())
     # depth 2: exhaustive at two positions, seeded elsewhere
     d2 = levels[2]
-    n2 = 500 if tier == 'quick' else len(d2)
+    n2 = 350 if tier == 'quick' else len(d2)
     sample = d2 if tier == 'thorough' else rnd.sample(d2, n2)
     for T in sample:
         sk = skeletons(T)
